@@ -163,6 +163,30 @@ def mean_oracle(run: Run):
             d = abs(((m0 - centre + PI) % TAU) - PI)
             if d > 0.31 and (w >= 0).all():
                 fails.append(("angmean:seam", f"mean {m0} of angles clustered at {centre} (range [{low},{high}])"))
+    # the weights an unscented filter really uses: a huge negative centre weight and 2n equal positive ones (sum 1), for the whole legal
+    # range of the spread parameter alpha; the sigma angles are symmetric about the centre, so the mean is the centre - also on the seam
+    for _ in range(run.n(120, 1500)):
+        nx = rng.choice([2, 6, 6, 9])
+        alpha = rng.choice([1e-3, 1e-3, 1e-4, 5e-5, 1e-5, 0.5, 1.0])
+        lam = alpha**2 * 3.0 - nx
+        w0, wi = lam / (nx + lam), 1.0 / (2.0 * (nx + lam))
+        centre = rng.choice([0.0, TAU - 1e-7, 1e-7, PI, -PI + 1e-9, TAU, rng.uniform(0, TAU)]) + rng.choice([0, 0, TAU, -3 * TAU])
+        spread = [alpha * math.sqrt(3.0) * rng.uniform(1e-5, 1e-3) for _ in range(nx)]
+        ang = np.array([centre] + [centre + d for d in spread] + [centre - d for d in spread])
+        if rng.random() < 0.7:
+            ang = np.mod(ang, TAU)  # as a measurement function reports them: each sigma angle wrapped on its own, so a cluster on the seam is split
+        w = np.array([w0] + [wi] * (2 * nx))
+        for low, high in ((0.0, TAU), (-PI, PI)):
+            m = guarded(M.angularMean, ang.copy(), weights=w.copy(), low=low, high=high)
+            run.case("angmean", {"nx": nx, "alpha": alpha, "centre": centre, "low": low}, True, branch="angmean:ukf-weights")
+            if m[0] != "ok":
+                fails.append(("angmean:raises", m[1]))
+                continue
+            d = abs(((float(m[1]) - centre + PI) % TAU) - PI)
+            # the weighted sum cancels |w0| against 2n w_i: the direction of the resultant is good to about |w0| x machine epsilon
+            if d > 1e-9 + 50.0 * abs(w0) * 2.3e-16:
+                fails.append(("angmean:ukf-weights", f"mean {float(m[1])!r} of {2 * nx + 1} sigma angles symmetric about {centre!r} with the unscented weights for alpha = {alpha} "
+                                                    f"(centre weight {w0:.3g}) in [{low},{high}]: {d:.3g} rad from the centre"))
     return fails
 
 
@@ -212,13 +236,14 @@ def make_obs(kind, sen_eci, truth_eci, when, offset):
     )
 
 
-def new_ukf(est_x, est_p, resample):
+def new_ukf(est_x, est_p, resample, alpha=None):
     from resonaate.dynamics.two_body import TwoBody
     from resonaate.estimation.kalman.unscented_kalman_filter import UnscentedKalmanFilter
     from resonaate.physics.time.stardate import ScenarioTime
 
     q = np.diag([1e-12] * 3 + [1e-14] * 3)
-    return UnscentedKalmanFilter(10001, ScenarioTime(0.0), est_x.copy(), est_p.copy(), TwoBody(), q, None, False, False, resample=resample)
+    kw = {} if alpha is None else {"alpha": alpha}
+    return UnscentedKalmanFilter(10001, ScenarioTime(0.0), est_x.copy(), est_p.copy(), TwoBody(), q, None, False, False, resample=resample, **kw)
 
 
 def ukf_cases(run: Run):
@@ -236,6 +261,7 @@ def ukf_cases(run: Run):
                 "el": rng.choice([20.0, 45.0, 70.0]), "rng": rng.choice([1500.0, 4000.0, 36000.0]),
                 "lat": rng.choice([30.0, -45.0, 60.0, 0.0]), "lon": rng.choice([-100.0, 10.0, 179.5]),
                 "resample": rng.random() < 0.5, "seed": rng.randint(0, 10**6), "turns": rng.choice([1, -1, 2, 5, 40]),
+                "alpha": rng.choice([None, None, 1e-4, 5e-5, 0.5]),
             }
         )
     # the history shape that needs care: equal total dimension, different angular layout
@@ -260,7 +286,7 @@ def ukf_run(c, variant):
     truth = dyn.propagate(ScenarioTime(dt), ScenarioTime(0.0), truth0) if False else truth0.copy()
     est_p = np.diag([1e-2] * 3 + [1e-6] * 3)
     est_x = truth + rs.normal(0, 1, 6) * np.sqrt(np.diag(est_p)) * 0.5
-    f = new_ukf(est_x, est_p, c["resample"])
+    f = new_ukf(est_x, est_p, c["resample"], c.get("alpha"))
     res = []
     t = 0.0
     for k, layout in enumerate(c["hist"]):
